@@ -448,9 +448,13 @@ def check_upload_window(P, R, rid='C07.a'):
                         if isinstance(o_, ast.Name):
                             for (e_, holds_, _t) in T.guard_atoms(rd_, d.node):
                                 cp_ = compare_parts(e_)
-                                if cp_ and isinstance(cp_[0], ast.Name) and cp_[0].id == o_.id and isinstance(cp_[2], ast.Constant) and type(cp_[2].value) is int and holds_ \
-                                        and ((cp_[1] is ast.Gt and cp_[2].value >= 0) or (cp_[1] is ast.GtE and cp_[2].value >= 1)) and rd.same_defs(_t, d.node, o_.id):
-                                    pos_ = True
+                                if cp_ and isinstance(cp_[0], ast.Name) and cp_[0].id == o_.id and isinstance(cp_[2], ast.Constant) and type(cp_[2].value) is int \
+                                        and rd.same_defs(_t, d.node, o_.id):
+                                    k_ = cp_[2].value
+                                    if holds_ and ((cp_[1] is ast.Gt and k_ >= 0) or (cp_[1] is ast.GtE and k_ >= 1)):
+                                        pos_ = True
+                                    if not holds_ and ((cp_[1] is ast.LtE and k_ >= 0) or (cp_[1] is ast.Lt and k_ >= 1)):
+                                        pos_ = True          # `not (sz <= 0)`
                         if not pos_:
                             ok = False
                             det = (f'`{short(v)}` bounds the size only when `{short(o_)}` is positive: a negative size (read(-1), the usual spelling of "everything") is smaller than '
